@@ -744,27 +744,38 @@ func TestCheck(t *testing.T) {
 					r.Violate("padding", i, "padding:question", fmt.Sprintf("%s: question after padding %+v, want %+v", stage, dec.Question, spec.Question), payload)
 					return false
 				}
-				// everything but the OPT options is unchanged; exactly one padding option; other options kept
+				// everything but the OPT record is unchanged; exactly one OPT; its fixed fields are kept
 				want := toRepo(spec, nil)
 				var gotOpts []dns.Option
-				nOPT := 0
-				for k, rr := range dec.Additional {
-					if rr.Type == dnsx.TypeOPT {
-						nOPT++
-						gotOpts, _ = rr.Data.([]dns.Option)
-						dec.Additional[k].Data = []dns.Option{}
+				var gotOPT, wantOPT []dns.RR
+				strip := func(in []dns.RR, opts *[]dns.RR) []dns.RR {
+					var out []dns.RR
+					for _, rr := range in {
+						if rr.Type == dnsx.TypeOPT {
+							if o, ok := rr.Data.([]dns.Option); ok && opts == &gotOPT {
+								gotOpts = o
+							}
+							rr.Data = []dns.Option{}
+							*opts = append(*opts, rr)
+							continue
+						}
+						out = append(out, rr)
 					}
+					return out
 				}
-				if !hasOPT {
-					want.Additional = append(want.Additional, dns.RR{Type: dnsx.TypeOPT, Class: dec.Additional[len(dec.Additional)-1].Class, Data: []dns.Option{}})
+				dec.Additional = strip(dec.Additional, &gotOPT)
+				want.Additional = strip(want.Additional, &wantOPT)
+				if len(gotOPT) != 1 {
+					r.Violate("padding", i, "padding:opt-count", fmt.Sprintf("%s: %d OPT records after padding", stage, len(gotOPT)), payload)
+					return false
 				}
-				for k, rr := range want.Additional {
-					if rr.Type == dnsx.TypeOPT {
-						want.Additional[k].Data = []dns.Option{}
+				if hasOPT {
+					if d := cmpRRs("additional", wantOPT, gotOPT); d != nil {
+						r.Violate("padding", i, "padding:message-changed:opt", stage+": padding changed the OPT record: "+d.Detail, payload)
+						return false
 					}
-				}
-				if nOPT != 1 {
-					r.Violate("padding", i, "padding:opt-count", fmt.Sprintf("%s: %d OPT records after padding", stage, nOPT), payload)
+				} else if gotOPT[0].Name != "" {
+					r.Violate("padding", i, "padding:opt-owner", fmt.Sprintf("%s: the added OPT record is owned by %q, not the root", stage, gotOPT[0].Name), payload)
 					return false
 				}
 				if d := cmpMsg(want, dec); d != nil {
